@@ -14,25 +14,33 @@ RECURSIVE SameG(_, _)
 SameG(a, b) == /\ a.t = b.t /\ a.l = b.l
                /\ IF a.t = "GC" THEN Len(a.body) = Len(b.body) /\ \A i \in DOMAIN a.body : SameG(a.body[i], b.body[i])
                   ELSE a.body = b.body
+\* "a MultiPoint with an empty member cannot be read back" (carve-out of the quantifier): a geometry that holds such a multipoint,
+\* at any depth, is outside the property's domain - how its empty member is written (null, an empty array) and whether the encoder
+\* accepts it at all is left open.  For it: no panic, and whatever the decoder accepts of the emitted text is well formed.
+RECURSIVE Carved(_)
+Carved(g) == IF g.t = "GC" THEN \E k \in DOMAIN g.body : Carved(g.body[k]) ELSE HasNilMember(g)
 VGeom(r) ==
-  LET g == r.case.g IN
+  LET g == r.case.g  dom == ~Carved(g) IN
   CASE r.pan # "" -> Viol("geojson|encode-or-decode|panic")
-    [] r.encerr # "" -> Viol("geojson|Marshal|error|" \o g.t)
-    [] r.json # EncGeom(g) -> Viol("geojson|Marshal|json-differs|" \o g.t)
+    [] dom /\ r.encerr # "" -> Viol("geojson|Marshal|error|" \o g.t)
+    [] dom /\ r.json # EncGeom(g) -> Viol("geojson|Marshal|json-differs|" \o g.t)
     [] RoundTrips(g) /\ r.backerr # "" -> Viol("geojson|roundtrip|error|" \o g.t)
     [] RoundTrips(g) /\ ~SameG(r.back, Canon(g)) -> Viol("geojson|roundtrip|differs|" \o g.t)
     [] r.backerr = "" /\ ~WFAll(r.wf) -> Viol("geojson|Unmarshal|ill-formed|" \o g.t)
     \* the same through geojson.Encode and (*Geometry).Decode
-    [] r.encerr2 # "" -> Viol("geojson|Encode|error|" \o g.t)
-    [] r.json2 # EncGeom(g) -> Viol("geojson|Encode|json-differs|" \o g.t)
+    [] dom /\ r.encerr2 # "" -> Viol("geojson|Encode|error|" \o g.t)
+    [] dom /\ r.json2 # EncGeom(g) -> Viol("geojson|Encode|json-differs|" \o g.t)
     [] RoundTrips(g) /\ r.backerr2 # "" -> Viol("geojson|Encode-Decode|error|" \o g.t)
     [] RoundTrips(g) /\ ~SameG(r.back2, Canon(g)) -> Viol("geojson|Encode-Decode|differs|" \o g.t)
     [] r.backerr2 = "" /\ ~WFAll(r.wf2) -> Viol("geojson|Decode|ill-formed|" \o g.t)
     [] OTHER -> OK
+\* properties: a null member and an empty object are the same "no properties" (nil versus empty is not promised)
+NoProps(p) == p[1] = "null" \/ (p[1] = "o" /\ p[2] = <<>>)
+SameProps(a, b) == IF NoProps(a) THEN NoProps(b) ELSE a = b
 FeatBack(back, f, api) ==
   CASE back.id # f.id -> Viol("geojson|feature|id" \o api)
     [] back.bbox # f.bbox -> Viol("geojson|feature|bbox" \o api)
-    [] back.props # f.props -> Viol("geojson|feature|properties" \o api)
+    [] ~SameProps(back.props, f.props) -> Viol("geojson|feature|properties" \o api)
     [] ~SameG(back.geom, CanonF(f).geom) -> Viol("geojson|feature|geometry" \o api)
     [] OTHER -> OK
 VFeat(r) ==
@@ -101,7 +109,12 @@ DropNumIds(kind, doc) == CASE kind = "feature" -> DropNumId(doc) [] kind = "fc" 
 DropAnyId(fd) == IF IsObj(fd) /\ Has(fd, "id") THEN DropId(fd) ELSE fd
 DropIds(kind, doc) == CASE kind = "feature" -> DropAnyId(doc) [] kind = "fc" -> OnMembers(doc, DropAnyId) [] OTHER -> doc
 Members(kind, doc) == IF kind = "feature" THEN <<doc>> ELSE Get(doc, "features")[2]      \* of a document that is Standard once its numeric ids are dropped
-SameF(a, b) == "nil" \notin DOMAIN a /\ a.id = b.id /\ a.bbox = b.bbox /\ a.props = b.props /\ SameG(a.geom, b.geom)
+SameF(a, b) == "nil" \notin DOMAIN a /\ a.id = b.id /\ a.bbox = b.bbox /\ SameProps(a.props, b.props) /\ SameG(a.geom, b.geom)
+\* the same leniency for documents: a Feature document whose "properties" member is an empty object is read as one with null
+NormP(fd) == IF IsObj(fd) /\ Has(fd, "properties") /\ NoProps(Get(fd, "properties"))
+             THEN Obj([k \in DOMAIN fd[2] |-> IF fd[2][k][1] = "properties" THEN <<"properties", Null>> ELSE fd[2][k]])
+             ELSE fd
+NormProps(kind, doc) == CASE kind = "feature" -> NormP(doc) [] kind = "fc" -> OnMembers(doc, NormP) [] OTHER -> doc
 SameV(kind, a, b) == IF kind = "feature" THEN SameF(a, b)
                      ELSE a.bbox = b.bbox /\ Len(a.features) = Len(b.features) /\ \A k \in DOMAIN b.features : SameF(a.features[k], b.features[k])
 Blank(f) == IF "id" \in DOMAIN f THEN [f EXCEPT !.id = ""] ELSE f
@@ -126,11 +139,11 @@ VRun(r, x, kind, d, std, doc2, d2, std2) ==
     [] std /\ kind = "geom" /\ ~SameG(x.g, d.v) -> Viol(tag \o "value-differs" \o api)
     [] std /\ kind # "geom" /\ ~SameV(kind, x.f, d.v) -> Viol(tag \o "value-differs" \o api)
     [] std /\ x.re # "" -> Viol(tag \o "re-encode-error" \o api)
-    [] std /\ x.rejson # r.case.doc -> Viol(tag \o "re-encoded-differs" \o api)
+    [] std /\ NormProps(kind, x.rejson) # NormProps(kind, r.case.doc) -> Viol(tag \o "re-encoded-differs" \o api)
     [] std2 /\ ~x.ok -> Viol(tag \o "rejects-numeric-id" \o api)
     [] std2 /\ ~SameV(kind, BlankNumIds(kind, r.case.doc, x.f), d2.v) -> Viol(tag \o "numeric-id|value-differs" \o api)
     [] std2 /\ x.re # "" -> Viol(tag \o "numeric-id|re-encode-error" \o api)
-    [] std2 /\ DropIds(kind, x.rejson) # DropIds(kind, r.case.doc) -> Viol(tag \o "numeric-id|re-encoded-differs" \o api)
+    [] std2 /\ NormProps(kind, DropIds(kind, x.rejson)) # NormProps(kind, DropIds(kind, r.case.doc)) -> Viol(tag \o "numeric-id|re-encoded-differs" \o api)
     [] std2 /\ ~IdsKept(kind, r.case.doc, r.idin, x.reid) -> Viol(tag \o "numeric-id|id-not-kept" \o api)
     [] OTHER -> OK
 VDec(r) ==
